@@ -60,6 +60,30 @@ CHECKS = {
         "Virtual time: only select() waits take time; TLS blocking transport and real-thread lock contention are outside these layers.",
         "DESIGN.md section 3 C11",
     ),
+    "C03": (
+        "exploration",
+        "property-based history generation with a model oracle: packets x arrival groups x peer-close position x recv_packet/iter_received_packets call histories, stale-data-after-EOF transport",
+        "Generated streams (valid packets + optional trailing partial frame) delivered in groups with the peer closing at a generated position, consumed by generated histories of recv_packet/iter_received_packets with timeouts {None,0,>0}, on StreamEndpoint, TCPNetworkClient (fake selector + virtual clock), "
+        "AsyncStreamEndpoint and AsyncTCPNetworkClient (in-memory transport, virtual loop), both receive paths: every complete packet exactly once and in order, EOF only after them, sticky afterwards without blocking, partial frame never delivered.",
+        "Transports are simulated (they return stale garbage when read after EOF so that a lost latch is visible); real loopback sockets are not used.",
+        "DESIGN.md section 3 C03",
+    ),
+    "C19": (
+        "exploration",
+        "property-based schedule generation + enumerated cancellation ticks: scripted connect outcomes under a recording socket namespace on a virtual loop, leak oracle created-closed in {empty,{returned}}",
+        "Connection plans (1-5 mixed-family addresses, per-attempt delay/outcome, happy-eyeballs delay, bind and socket() failures, stream and datagram) run through the real resolver on the virtual loop with the module's socket namespace replaced by a recording one; "
+        "each plan is re-run with task.cancel() at every loop tick and with enclosing scopes expiring at every interesting instant; exactly one open socket returned or everything closed.",
+        "connect_socket/getaddrinfo are scripted; only the numeric-host path of address resolution is driven.",
+        "DESIGN.md section 3 C19",
+    ),
+    "C20": (
+        "exploration",
+        "property-based operation sequences against a waiter-set model (WriteFlowControl) and against the real asyncio protocols over a fake selector transport; one real-socket backpressure probe",
+        "Generated interleavings of sends, peer reads, pause/resume, connection loss, close and cancellation of individual senders for WriteFlowControl, StreamReaderBufferedProtocol + adapter and the datagram endpoint/listener protocols over fake asyncio transports with bounded kernel capacity; "
+        "a returning sender has its bytes handed to the kernel, parked senders resume or fail with a connection error, none is stranded. A real socketpair variant sends 8 MiB to a non-reading peer.",
+        "Fake transports mirror CPython 3.12 selector transports (fixed writelines); the stdlib writelines defect of 3.12.1 is a listed known finding (D9) re-observed on every run through a committed replay.",
+        "DESIGN.md section 3 C20",
+    ),
 }
 
 PENDING = {}
